@@ -30,19 +30,36 @@ CHECKS = {
         "(tied by correspondence); Gen/EvalMeta.lean (type identifiers / data-characteristics kinds probed from live state types), Gen/StateTypes.lean (MIMETYPES); the command version hash "
         "is opaque (flag only); kept-copy agreement is checked on the implementation only; known finding: a query without any action has no status."),
  ),
+ "C10": dict(
+  text=("Theorems in Props/C10.lean over a heap model of the evaluator (Iso.lean: mutable objects in cells, State = data + metadata-dictionary cell holding the variables; copies exactly where the code copies; "
+        "in-place mutating commands; the caller mutating returned data, nested data, variables and metadata), for every history of any length: eval_frame / args_frame (an evaluation never writes a cell that "
+        "existed before it started; what it returns and caches is freshly allocated), sep_init / sep_step / sep_run (cells of distinct returned states, cache entries and the configured defaults stay pairwise "
+        "disjoint), caller_isolation / eval_isolation / defaults_never_change / returned_never_changes, result_is_meaning and result_independent_of_history (every result is the value-level meaning of its chain, "
+        "whatever was evaluated or mutated before - under the hypothesis Safe: no getvar/cvapp on a volatile predecessor, which is the known finding volatile-input-not-cloned), variable-scope lemmas on the "
+        "specification. The relative-link clause of variable scope is C01/C04's refinement to the reference interpretation (which starts from the configured defaults). Correspondence: histories of evaluations "
+        "over a mutating vocabulary and caller mutations under 7 cache kinds; after every operation result, call log, ALL returned states, what the cache serves for every related key and the defaults vs the model; "
+        "oracle: fresh evaluation, earlier results unchanged, defaults unchanged, served = fresh, value-level meaning (independent pure interpreter), object-identity separation of returned states / "
+        "MemoryCache.storage / defaults."),
+  note=("Trusted: Lean kernel; LiquerModel/Iso.lean mirror of vars_clone, State.clone/next_state/as_dict/from_dict, the clone in evaluate_action (skipped for volatile input), MemoryCache.get/store, the live hand-off of link "
+        "arguments, context.vars and returned states (tied by correspondence); abstraction: one heap cell per value (object graphs below a reference are the content of one cell - the identity oracle traverses them "
+        "on the implementation); its own small vocabulary (semantics written three times: Python commands, Iso.cmdH, Iso.cmdV / the harness' pure interpreter); serialising caches own no live objects; progress "
+        "metadata writes are not modelled here."),
+ ),
  "C12": dict(
-  text=("Theorems in Props/C12.lean over the concurrency model (Conc.lean: threads = the evaluator run against an answer oracle, EvalO.lean, generated from Eval.lean; any thread may move; "
-        "Reach = reflexive-transitive closure of StepAny, i.e. ALL schedules of any length and any number of threads): oracle_refines (a thread that received good answers writes only good "
-        "data and returns the reference value), reach_preserves_inv, cache_sound_every_schedule / cache_values_fresh (every data entry of every reachable shared cache is the fresh value of its key), "
-        "result_is_solo / result_is_sequential (every finished thread returns the reference interpretation's observation = what it returns alone), answers_are_finished / never_serves_unfinished / "
-        "metadata_only_is_miss (a key whose producer has only written metadata, even 'ready', is a miss), evalQO_agrees (the oracle evaluator fed a cache's own answers is the sequential evaluator). "
-        "Correspondence: real threads under a deterministic scheduler (yield before every get/store/remove of the shared cache; progress-metadata writes run with the operation before them) replay seeded "
-        "schedules with up to 3 (thorough 5) pre-emptions on MemoryCache, FileCache, StoreCache(MemoryStore); per-thread outcome, call log, sequence of pre-emption points and final cache vs the model; "
-        "oracle: every thread returns its solo NoCache result and every value left in the cache equals a fresh evaluation. Partial: pre-emption inside one cache operation (between the file operations "
-        "of a file-backed cache, between byte codes) is below the model's atomicity - the file-step protocol of FileCache is covered by C16's theorems for every cut point."),
-  note=("Trusted: Lean kernel; the evaluator model (as C01/C04) and its mechanical oracle-world translation EvalO.lean (harness/gen_evalo.py --check on every run); Conc.lean's atomicity: one cache operation "
-        "is one step, Python threads are sequentially consistent at that granularity; the harness scheduler (semaphores, one runnable thread at a time); hypotheses Closed/CanonOK as in C04 (C02 round trip); "
-        "known finding rtq-ambiguous-text shared with C04."),
+  text=("Theorems in Props/C12.lean over the concurrency model (Conc.lean: a thread = the evaluator run against an answer oracle, EvalO.lean, generated from Eval.lean; its own steps are its get / store / remove; "
+        "ANY metadata-only write by anyone at any time is an environment step; Reach = reflexive-transitive closure of 'a thread moves or the environment writes metadata', i.e. ALL schedules of any length and any "
+        "number of threads): oracle_refines (a thread that received good answers writes only good data and returns the reference value), reach_preserves_inv / env_preserves_inv / events_preserve_inv, "
+        "cache_sound_every_schedule / cache_values_fresh (every data entry of every reachable shared cache is the fresh value of its key), result_is_solo / result_is_sequential (every finished thread returns the "
+        "reference interpretation's observation = what it returns alone), answers_are_finished / never_serves_unfinished / metadata_only_is_miss (a key whose producer has only written metadata, even 'ready', is a "
+        "miss), evalQO_agrees (the oracle evaluator fed a cache's own answers is the sequential evaluator). Correspondence: real threads under a deterministic scheduler (EVERY cache operation incl. every progress "
+        "write is a yield point) on MemoryCache, FileCache, StoreCache(MemoryStore): seeded schedules with up to 3 (thorough 5) pre-emptions and a structured family (three evaluations sharing a prefix, one pre-empted "
+        "twice, the others running to completion in the gaps); the model replays the global sequence of operations the implementation performed (its store_metadata calls verbatim as environment steps); per-thread "
+        "outcome, call log, own operations and final cache are compared; oracle: every thread returns its solo NoCache result, every value left in the cache equals a fresh evaluation. Known finding: a progress write "
+        "on an entry another evaluation has finished replaces its metadata (metadata symptoms only are excused, a wrong value never). Partial: pre-emption inside one cache operation (between the file operations of a "
+        "file-backed cache) is below the model's atomicity (seeded changes C12-1, C12-3 are missed for that reason; C16 covers every cut point of a single writer)."),
+  note=("Trusted: Lean kernel; the evaluator model (as C01/C04) and its mechanical oracle-world translation EvalO.lean (harness/gen_evalo.py --check on every run); Conc.lean's atomicity: one cache operation is one step, "
+        "Python threads are sequentially consistent at that granularity; the harness scheduler (semaphores, one runnable thread at a time); hypotheses Closed/CanonOK as in C04 (C02 round trip); known findings "
+        "rtq-ambiguous-text (shared with C04) and progress-write-on-finished-entry."),
  ),
  "C03": dict(
   text=("Lean theorems for every finite string of Unicode scalar values and every escape table satisfying the decidable side condition "
@@ -101,7 +118,7 @@ CHECKS = {
  "C14": dict(
   text=("route_exclusive (any table), mount_union_* (keys, listdir, contains, is_dir, metadata key as the re-prefixed union, for every table satisfying "
         "tableWF, any number of mounts), write exclusivity/frame, to_root_key for owned keys. Two full statements are false for the code and kept "
-        "statement-only with decide-refutations (known findings D7f, D7g). Correspondence: all mount tables <= 3 mounts over {a,a/b,c,c/d} x "
+        "statement-only with decide-refutations (known findings D7f, D7g). Correspondence: all mount tables <= 3 mounts over {a,a/b,c,c/d,ab,c/dd} (names that extend each other as text but not as paths), nested mount-point stores of depth 2-3 x "
         "{memory,file} x default {none,empty,populated} with generated histories; oracle = union of the parts."),
   note=("Trusted: Lean kernel; LiquerModel/StoreMount.lean mirror of MountPointStore/PrefixStore (as fixed by the D7a-e commits); partial: "
         "mount_keys_complete and to_root_key_reaches hold only under the stated hypotheses."),
@@ -109,7 +126,8 @@ CHECKS = {
  "C11": dict(
   text=("Dispatch and framing are proved: c11_dispatch over the regenerated registry (identifier and qualified name select the same type; default "
         "extension readable; recorded identifier selects a decoder for every writable+readable extension), c11_key_roundtrip (JSON key escaping for "
-        "every string), c11_djson (line-oriented dictionary framing for any dictionary under the element law). The codecs themselves (json, pickle, "
+        "every string), c11_djson (line-oriented dictionary framing for any dictionary under the element law), c11_register_selects / _frame / _history (after any "
+        "history of StateTypesRegistry.register calls the last registration is consistent: type name and recorded identifier select the same object). The codecs themselves (json, pickle, "
         "pandas/pyarrow) enter as explicit CodecLaw hypotheses and are validated differentially only (partial)."),
   note=("Trusted: Lean kernel; extract.py probing of writes/reads sets on sample values; third-party codecs (hypotheses of the theorems)."),
  ),
